@@ -726,6 +726,7 @@ static long written_so_far(void)
 {
     size_t i;
     if (!gen_out) return 0;
+    PUBLIC((void *)gen_out, gen_size);      /* output already produced is public; the harness may look at it */
     for (i = gen_size; i > 0; i--) if (gen_out[i - 1] != (unsigned char)gen_pf) break;
     i = ((i + 31) / 32) * 32;          /* output is produced in whole 32-byte blocks before a request */
     return (long)(i > gen_size ? gen_size : i);
